@@ -23,6 +23,11 @@ def handled_state : List (String × StateArg) := [
   ("ReadAssignment.assignment_id_generator", .equalityOnlyWithinChromosome),
   ("FeatureInfo.feature_id_counter", .neverRead),
   ("GraphBasedModelConstructor.detected_known_isoforms", .resetPerTask),
+  -- added by fix b2b4dd9 (C04): keys (strand, intron chain) of the novel models already reported on this chromosome; the
+  -- same mechanics as `detected_known_isoforms` (a class-level set, cleared at the top of every chromosome task,
+  -- filtered against and extended block by block).  In Model/Schedule.lean both sets are the ONE list `WState.detected`
+  -- over the disjoint union of the two key spaces (isoform ids / chain keys), `Block.known` = the keys a block reports
+  ("GraphBasedModelConstructor.reported_novel_chains", .resetPerTask),
   ("MultimapResolver.duplicate_counter", .logOnlyParentOnly)]
 
 /-- fields of the `args` namespace assigned after start-up.  All assignments happen in the parent before a pool
